@@ -7,8 +7,10 @@ package c14
 // round trip's rounding (~1e-10 tile) is part of the input, not of the check.
 
 import (
+	"fmt"
 	"math"
 	"sort"
+	"strings"
 	"testing"
 
 	"github.com/paulmach/orb"
@@ -579,6 +581,29 @@ func zoomBucket(z uint32) string {
 func classify(test string, c Case, inf info) {
 	stats.Class("kind:" + c.Class)
 	stats.Class(zoomBucket(c.Z))
+	if strings.HasPrefix(c.Class, "micro/") || strings.HasPrefix(c.Class, "dense/") {
+		// the sub-scale classes: what the model could demand of them
+		switch {
+		case !inf.inDomain:
+			stats.Class("subscale:outside (" + inf.why + ")")
+		case inf.reqTiles == 0:
+			stats.Class("subscale:in quantifier, vertex rule only (all within 1e-6 tile of an edge)")
+		case inf.reqTiles == 1:
+			stats.Class("subscale:in quantifier, 1 required tile")
+		default:
+			stats.Class("subscale:in quantifier, >= 2 required tiles (crosses a boundary)")
+		}
+		if c.Dense != nil {
+			switch {
+			case c.Dense.N >= 100000:
+				stats.Class("dense:>=1e5 steps")
+			case c.Dense.N >= 10000:
+				stats.Class("dense:1e4..1e5 steps")
+			default:
+				stats.Class("dense:1e3..1e4 steps")
+			}
+		}
+	}
 	if c.Kind == "cover" {
 		stats.Class("layout:" + c.Layout)
 		if inf.inDomain {
@@ -615,7 +640,13 @@ func classify(test string, c Case, inf info) {
 	} else {
 		stats.Class("target:< cover zoom")
 	}
-	if multiRow || inf.interiorOnly > 0 || inf.mergedQuad {
+	// sub-scale cases are non-trivial when the model demands a tile of them (their
+	// cover is at most a few tiles, so the multi-row rule rarely applies)
+	subscale := (strings.HasPrefix(c.Class, "micro/") || strings.HasPrefix(c.Class, "dense/")) && inf.inDomain && inf.coverSize > 0
+	if subscale {
+		stats.Class("nontrivial:sub-scale geometry in the quantifier")
+	}
+	if multiRow || inf.interiorOnly > 0 || inf.mergedQuad || subscale {
 		stats.NonTrivial(gen.JSON(c))
 		grp := c.Class
 		for i := range grp {
@@ -636,17 +667,18 @@ func classify(test string, c Case, inf info) {
 const (
 	assumeEps      = "tolerance: a tile is required only if the geometry meets it shrunk by 1e-6 tile on all four sides, allowed if the geometry meets it grown by 1e-6 tile; contacts in between are optional (DESIGN 3.2)"
 	assumeProj     = "the mercator image of a segment is the straight tile-space segment between the projected vertices (harness's own asinh/tan projection); vertices with lon in (-179.82,179.82), |lat| < 84.97"
-	assumeLines    = "line strings with total tile-space length <= 1e-6 tile count as zero-length (outside the quantifier): nothing is required of their cover except no extra tile"
+	assumeLines    = "line strings whose vertices all project to one point count as zero-length (outside the quantifier): nothing is required of their cover except no extra tile"
 	assumePolys    = "polygons are simple in tile space (star-shaped, comb, lattice star, rectangle; holes strictly inside and disjoint) with closed rings; anything else (checked by the harness's own simplicity test) only has to return without panic and without tiles outside its bound"
 	assumeBounds   = "orb.Bound inputs have Min <= Max; cover of a bound = every tile overlapping the rectangle"
 	assumeMerge    = "merge inputs are sets of distinct tiles of one zoom with value true; target zoom <= that zoom; MergeUpPartial is only checked for count = 4"
 	assumeReadOnly = "tile covers are read-only on their geometry argument: the argument is laid out as windows of one buffer / with spare capacity and sentinels, and its whole backing arrays must be bit-identical after the calls; unclosed ring spellings (outside the quantifier, may be refused) are included for this and for totality"
 	assumeAlias    = "results of MergeUp/MergeUpPartial must not change when another set is merged afterwards; the result may be the argument itself (documented for target = input zoom)"
+	assumeScale    = "geometries whose extent is below 2^-45 world widths (128 ulp of the largest tile fraction: 2.8e-14 tile at zoom 0, 1.2e-7 tile at zoom 22) may collapse to one tile fraction and count as zero-length (nothing required); above it a geometry is decided however short its segments are, and the cover holds, for each vertex, a tile within 1e-6 tile of it"
 	assumeMembers  = "tiles of a maptile.Set are its keys with value true"
 )
 
 func assumptions() {
-	for _, a := range []string{assumeEps, assumeProj, assumeLines, assumePolys, assumeBounds, assumeMerge, assumeMembers, assumeReadOnly, assumeAlias} {
+	for _, a := range []string{assumeEps, assumeProj, assumeLines, assumePolys, assumeBounds, assumeMerge, assumeMembers, assumeReadOnly, assumeAlias, assumeScale} {
 		stats.Assume(a)
 	}
 }
@@ -654,17 +686,53 @@ func assumptions() {
 // 40 % shared buffer, 40 % spare capacity, 20 % plain
 var layouts = []string{"shared", "shared", "spare", "spare", "plain"}
 
+// drawCase draws one cover case. heavy = false leaves out the two expensive
+// classes (polygons hundreds of tiles across, lines of > 2e4 micro steps) so that
+// a group of cases can be repeated many times (TestPropConcurrent).
+func drawCase(rt *rapid.T, heavy bool) Case {
+	z := uint32(rapid.IntRange(0, 22).Draw(rt, "z"))
+	s := newTS(z)
+	layout := layouts[rapid.IntRange(0, 4).Draw(rt, "layout")]
+	c := Case{Kind: "cover", Z: z, Target: genTarget(rt, z), Layout: layout}
+	// densified lines cost ~20 us per vertex (four walks by orb, the model, the
+	// layout guard): they are rare and capped per tier
+	// (a mid-range value of an IntRange comes up about three times less often than 1/range)
+	denseOdds, maxN := 100, 20000
+	if stats.Thorough() {
+		denseOdds, maxN = 700, 200000
+	}
+	if !heavy {
+		denseOdds, maxN = 100, 2000
+	}
+	switch sel := rapid.IntRange(0, denseOdds-1).Draw(rt, "scale"); {
+	case sel == denseOdds/2+1: // not 0: rapid draws small values far more often than 1/denseOdds
+		d, class := genDense(rt, s, maxN)
+		c.Dense, c.Class = &d, class
+		return c
+	case sel%6 == 1:
+		g, class := genMicro(rt, s)
+		c.G, c.Class = gen.G{V: g}, class
+		return c
+	}
+	g, class := genGeom(rt, s, 0)
+	for tries := 0; !heavy && strings.Contains(class, "-big") && tries < 4; tries++ {
+		g, class = genGeom(rt, s, 0)
+	}
+	if hasRing(g) && rapid.IntRange(0, 7).Draw(rt, "unclosed") == 0 {
+		g, class = unclose(g), class+"+unclosed"
+	}
+	c.G, c.Class = gen.G{V: g}, class
+	return c
+}
+
+func nonTrivial(inf info) bool {
+	return (inf.inDomain && inf.reqTiles >= 3 && inf.reqRows >= 2) || inf.interiorOnly > 0 || inf.mergedQuad
+}
+
 func TestPropCover(t *testing.T) {
 	assumptions()
 	stats.Check(t, 44000, 2400000, func(rt *rapid.T) {
-		z := uint32(rapid.IntRange(0, 22).Draw(rt, "z"))
-		s := newTS(z)
-		g, class := genGeom(rt, s, 0)
-		if hasRing(g) && rapid.IntRange(0, 7).Draw(rt, "unclosed") == 0 {
-			g, class = unclose(g), class+"+unclosed"
-		}
-		layout := layouts[rapid.IntRange(0, 4).Draw(rt, "layout")]
-		c := Case{Kind: "cover", Class: class, Z: z, Target: genTarget(rt, z), G: gen.G{V: g}, Layout: layout}
+		c := drawCase(rt, true)
 		var inf info
 		stats.Try(rt, "TestPropCover", c, func() error {
 			var err error
@@ -672,6 +740,42 @@ func TestPropCover(t *testing.T) {
 			return err
 		})
 		classify("TestPropCover", c, inf)
+	})
+}
+
+// TestPropConcurrent evaluates 2..8 independent cover cases at the same time on
+// separate goroutines, 20 rounds each. The cover and merge functions depend on
+// their arguments only (checkCase is a pure function of the case and sets no
+// package-level state of orb), so every case must still agree with the model:
+// a disagreement means concurrent callers share state inside the library.
+func TestPropConcurrent(t *testing.T) {
+	assumptions()
+	stats.Assume("concurrent callers: tilecover.* and MergeUp* are functions of their arguments only; groups of 2..8 independent cases run on as many goroutines, 20 rounds each")
+	stats.Check(t, 2000, 50000, func(rt *rapid.T) {
+		n := rapid.IntRange(2, 8).Draw(rt, "goroutines")
+		cs := make([]Case, n)
+		for i := range cs {
+			cs[i] = drawCase(rt, false)
+		}
+		stats.Class(fmt.Sprintf("concurrent:%d goroutines", n))
+		nts := make([]bool, n)
+		stats.TryParallel(rt, "TestPropConcurrent", cs, n, 20, func(i int) error {
+			inf, err := evaluate(cs[i])
+			nts[i] = nonTrivial(inf) // goroutine i is the only writer of slot i
+			return err
+		})
+		nt := 0
+		for _, b := range nts {
+			if b {
+				nt++
+			}
+		}
+		if nt >= 2 {
+			stats.NonTrivial("conc:" + gen.JSON(cs))
+			if stats.WantSample("concurrent") {
+				stats.Sample("concurrent", cs)
+			}
+		}
 	})
 }
 
